@@ -6,8 +6,8 @@ package ext
 
 //@ package github.com/basecomplextech/baselibrary/status
 
-//@ global OK: OK.Code == "ok"
-//@ global None: None.Code == ""
+//@ global OK: OK.Code == "ok" && OK.Message == "" && OK.Error == nil
+//@ global None: None.Code == "" && None.Message == "" && None.Error == nil
 //@ global Closed: Closed.Code == "closed"
 //@ global Cancelled: Cancelled.Code == "cancelled"
 //@ global Timeout: Timeout.Code == "timeout"
